@@ -33,4 +33,7 @@ Emit == LET ks == SetToSeq(MCDescs) IN
         TLCGet("stats").generated >= 0 /\ ndJsonSerialize(IOEnv.OUT, [q \in 1..Len(ks) |-> Line(ks[q])])
 
 AllGuards == {"field", "type", "drop"}
+NoDropGuard == {"field", "type"}
+NoTypeGuard == {"field", "drop"}
+NoFieldGuard == {"type", "drop"}
 =============================================================================
